@@ -1,6 +1,7 @@
 import NomtModel.Driver.BranchUpdMode
 import NomtModel.Store.StageGlueModel
 import NomtModel.Store.LeafUpdSep
+import NomtModel.Store.FreeListModel
 /-!
 Driver mode `stageglue` (C01 / C19 / C16 / C10): the mirror of the glue of the beatree update
 (`Store/StageGlueModel.lean`: `enforceFirst`, `filterCs`, `update`) behind a line protocol.  The harness
@@ -15,9 +16,12 @@ Keys 32 bytes lowercase hex; `-` = none / empty list.
 * `tree` — start a new tree: `ok`;  `bnode <separator> <bbn> <pl> <pc> <key:pn:bits,…>` — the next branch node: `ok`;
   `leaf <separator> <pn> <key:size:o:pages,…>` — the next leaf (`pages` = `p+p+…` what `overflow::delete` frees for the
   cell, `_` for none): `ok`
+* `stores <ln bump> <bbn bump>` — two fresh stores (empty free lists) with these allocation frontiers: `ok`
 * `update <real|seeded> <ln bump> <bbn bump> <key:D|key:I<len>|key:O<len>,…>` — `ops::update` with one worker on the
-  registered tree: `lcs=<leaf changeset> lnfreed=<pn,…> bbnfreed=<pn,…> io=<n> idx=<separator|bbn|pl|pc|items;…>
-  leaves=<pn|key:size:o:pages,…;…> cache=<pn,…>` / `panic`
+  registered tree; both stores are the ones the previous `update` left (`Store::open` with the `SyncData` it returned: the
+  free lists of `Store/FreeListModel.lean` carry over, `allocate` pops them before it bumps): `lcs=<leaf changeset>
+  lnfreed=<pn,…> bbnfreed=<pn,…> io=<n> idx=<separator|bbn|pl|pc|items;…> leaves=<pn|key:size:o:pages,…;…> cache=<pn,…>
+  sync=<ln bump>/<ln free-list head|->/<bbn bump>/<bbn free-list head|->` / `panic`
 -/
 namespace Nomt.Driver
 open Nomt Nomt.StageGlue
@@ -73,6 +77,15 @@ def sgChanges (a : String) : Option (List (Nat × VC)) := if a == "-" then some 
 structure SgState where
   index : List BranchUpd.DbNode := []
   leaves : List (Nat × DbLeaf Cell) := []      -- (page number, leaf)
+  /-- the two stores as the last sync left them (`StoreSync`: free list + bump) -/
+  lnFl : Store.FreeList.State := { portions := [], released := [], pop := false, bump := 0 }
+  bbnFl : Store.FreeList.State := { portions := [], released := [], pop := false, bump := 0 }
+
+/-- `MAX_PNS_PER_PAGE` of `free_list.rs` -/
+def sgCap : Nat := 1022
+
+def sgHead (ps : List Store.FreeList.Portion) : String :=
+  match Store.FreeList.headPn ps with | [] => "-" | h :: _ => toString h
 
 def sgLpn (leaves : List (Nat × DbLeaf Cell)) (sep : Nat) : Nat :=
   match leaves.find? (fun (_, l) => l.sep == sep) with
@@ -116,7 +129,13 @@ def stageglueStep (s : SgState) (line : String) : SgState × String :=
     match buChanges cs with
     | some cs => (s, match ExtRange.filterCs false cs with | none => "panic" | some cs' => s!"cs={sgShowCs cs'}")
     | none => (s, "bad-op")
-  | ["tree"] => ({}, "ok")
+  | ["tree"] => ({ s with index := [], leaves := [] }, "ok")
+  | ["stores", lnBump, bbnBump] =>
+    match lnBump.toNat?, bbnBump.toNat? with
+    | some a, some b =>
+      ({ s with lnFl := { portions := [], released := [], pop := false, bump := a },
+                bbnFl := { portions := [], released := [], pop := false, bump := b } }, "ok")
+    | _, _ => (s, "bad-op")
   | ["bnode", sep, bbn, pl, pc, items] =>
     match natOfHexKey sep, bbn.toNat?, pl.toNat?, pc.toNat?, buItems items with
     | some sep, some bbn, some pl, some pc, some its =>
@@ -128,9 +147,9 @@ def stageglueStep (s : SgState) (line : String) : SgState × String :=
     | _, _, _ => (s, "bad-op")
   | ["update", v, lnBump, bbnBump, cs] =>
     match sgVariant v, lnBump.toNat?, bbnBump.toNat?, sgChanges cs with
-    | some seeded, some lnBump, some bbnBump, some cs =>
-      let lnFresh := fun k => lnBump + k
-      let bbnFresh := fun k => bbnBump + k
+    | some seeded, some _, some _, some cs =>
+      let lnFresh := Store.FreeList.allocate s.lnFl
+      let bbnFresh := Store.FreeList.allocate s.bbnFl
       let lpn := sgLpn s.leaves
       let t : Tree Cell := { index := s.index, leaves := s.leaves.map (·.2), lpn := lpn }
       match mapChangeset lnFresh 0 cs with
@@ -139,9 +158,16 @@ def stageglueStep (s : SgState) (line : String) : SgState × String :=
         match update LeafUpd.sepReal BranchUpd.kfReal Cell.pages lnFresh bbnFresh seeded t cs' ovfAllocs with
         | none => (s, "panic")
         | some o =>
-          (s, s!"lcs={sgShowCs o.leafChangeset} lnfreed={buShowNats o.lnFreed} bbnfreed={buShowNats o.bbnFreed} " ++
+          -- `leaf_finisher.finish(freed_pages)` / `bbn_finisher.finish(freed_pages)`
+          match Store.FreeList.finish sgCap s.lnFl o.lnAllocs o.lnFreed, Store.FreeList.finish sgCap s.bbnFl o.bbnAllocs o.bbnFreed with
+          | some rl, some rb =>
+            let reopen (st : Store.FreeList.State) : Store.FreeList.State := { st with released := [], pop := false }
+            ({ s with lnFl := reopen rl.state, bbnFl := reopen rb.state },
+              s!"lcs={sgShowCs o.leafChangeset} lnfreed={buShowNats o.lnFreed} bbnfreed={buShowNats o.bbnFreed} " ++
               s!"io={o.submittedIo} idx={sgShowIndex o.index} " ++
-              s!"leaves={sgShowLeaves s.leaves o.postIo o.index} cache={buShowNats (o.postIo.map (·.1))}")
+              s!"leaves={sgShowLeaves s.leaves o.postIo o.index} cache={buShowNats (o.postIo.map (·.1))} " ++
+              s!"sync={rl.state.bump}/{sgHead rl.state.portions}/{rb.state.bump}/{sgHead rb.state.portions}")
+          | _, _ => (s, "panic")
     | _, _, _, _ => (s, "bad-op")
   | _ => (s, "bad-op")
 
